@@ -345,7 +345,12 @@ func (w *c01hWorld) second(factor string, ref int, right bool) int {
 			w.armBootstrap()
 		}
 		if ck != nil {
-			ck.usedFor = name
+			// two logins of one user within the same second yield the same token value
+			for _, o := range w.cookies {
+				if o != nil && o.value == ck.value {
+					o.usedFor = name
+				}
+			}
 		}
 	} else if factorOK && w.unsealed {
 		w.hit("refused-qualified", "second-factor:"+name, "a user who did complete an acceptable factor is served: the second-factor handler accepts the currently valid session this server handed out and the right value", fmt.Sprintf("%s with the %s (level %d, user %s) and the right value -> %d, no upgraded session", name, w.relation(ref), ck.level, c01Names[ck.user], rr.Code))
